@@ -127,8 +127,27 @@ def query_contigs(w, idx):
 	return _split(rnd, _mutate(rnd, base, q['mut']), q['contigs'])
 
 
-def write_fasta(path, contigs, gz=False, name='seq'):
+def soft_mask(contigs, seed):
+	"""The same sequences with random stretches in lower case (soft-masked assemblies): letter case carries no information."""
+	import random
+	rnd = random.Random(seed)
+	out = []
+	for c in contigs:
+		chars = list(c)
+		pos = 0
+		while pos < len(chars):
+			run = rnd.randrange(1, 40)
+			if rnd.random() < 0.5:
+				chars[pos:pos + run] = [ch.lower() for ch in chars[pos:pos + run]]
+			pos += run
+		out.append(''.join(chars))
+	return out
+
+
+def write_fasta(path, contigs, gz=False, name='seq', softmask=None):
 	"""gz: False / True (single member) / int >= 2 (that many gzip members, as bgzip or `cat a.gz b.gz` produce)."""
+	if softmask is not None:
+		contigs = soft_mask(contigs, softmask)
 	txt = ''.join(f'>{name}_{i}\n' + '\n'.join(c[j:j + 80] for j in range(0, len(c), 80)) + '\n' for i, c in enumerate(contigs))
 	data = txt.encode('ascii')
 	if gz is True or gz == 1:
